@@ -50,7 +50,7 @@ func expectedSig(m *scen.Method, o scen.Opts, sig *types.Signature) (recv *sigPa
 		results = append(results, sigParam{res.Name(), tstr(res.Type())})
 	}
 	if m.HasErr {
-		results = append(results, sigParam{"", "error"})
+		results = append(results, sigParam{"err", "error"}) // "`err error` last", whatever name the interface declares
 	}
 	return
 }
